@@ -58,7 +58,7 @@ Definition t2_ok (c : howcfg) (k : jcase) : bool :=
 Definition in_domain (c : howcfg) (k : jcase) : bool :=
   prog_dom c (c_left k) (c_lbase k) (c_lctes k) (c_steps k) (c_fin k)
   || match c_steps k, c_fin k with
-     | [x], FNone => right_dom (c_left k) (c_lbase k) (c_lctes k) x
+     | [x], FNone => right_dom c (c_left k) (c_lbase k) (c_lctes k) x
      | _, _ => false
      end.
 
